@@ -7,7 +7,7 @@ for id in "$@"; do
   if ! head -1 $m | grep -q "^fix: "; then echo "$id: BAD MSG"; continue; fi
   if ! git apply --check $d 2>/dev/null; then echo "$id: DOES NOT APPLY"; continue; fi
   git apply $d
-  out=$(/venv/bin/python -m pytest $T -q -p no:cacheprovider -x 2>&1 | tail -1 | sed 's/\x1b\[[0-9;]*m//g')
-  if echo "$out" | grep -qE "(^| )[0-9]+ (failed|error)"; then echo "$id: TESTS FAIL: $out"; git checkout -q -- .; continue; fi
+  out=$(eval "/venv/bin/python -m pytest $T -q -p no:cacheprovider -x" 2>&1 | tail -1 | sed 's/\x1b\[[0-9;]*m//g')
+  if echo "$out" | grep -qE "(^| )[0-9]+ (failed|error)|no tests ran"; then echo "$id: TESTS FAIL: $out"; git checkout -q -- .; continue; fi
   git commit -qaF $m && echo "$id: committed $(git rev-parse --short HEAD) [$out]"
 done
